@@ -412,7 +412,7 @@ func c11Signal2Env(k int, arg string) []string {
 }
 
 func c11Replay(c *core.Ctx, payload json.RawMessage) {
-	if c11CompetingReplay(c, payload) {
+	if c11CompetingReplay(c, payload) || c11Panic2Replay(c, payload) {
 		return
 	}
 	var p c11Payload
